@@ -2,7 +2,7 @@
 # setup_cmd: build coq/theories from files on disk (offline), lint for forbidden constructs.
 set -e
 cd "$(dirname "$0")/coq"
-find theories -name '*.v' | sort > .vfiles
+find theories -name "*.v" | sort > .vfiles
 { echo "-Q theories Tangelo"; cat .vfiles; } > _CoqProject
 coq_makefile -f _CoqProject -o Makefile.coq > /dev/null
 timeout 3000 make -f Makefile.coq -j16 2>&1 | grep -v "^COQDEP\|^COQC\|WARNING conda" || true
